@@ -1,0 +1,10 @@
+//go:build !verif
+
+package tree
+
+// Verification hooks (see verif_on.go); without the verif build tag they are
+// empty and inlined away.
+
+func verifPoint(goroutine int, site string) {}
+
+func verifJoin() {}
